@@ -27,7 +27,14 @@ def if_transform(cx):
     cx.call('copy', lambda ex, st, r, a, kw: fresh_cond(ex, HOLDS(r.t)), trusted='Condition.copy(): equivalent condition')
     cx.call('simplify', lambda ex, st, r, a, kw: fresh_cond(ex, HOLDS(r.t)), trusted='Condition.simplify(): equivalent condition (And/Or/Not.simplify)')
     cx.call('subs', lambda ex, st, r, a, kw: VNone(), trusted='renaming reassigned condition variables to their _old copies keeps the truth value in the entry state (C02 bounded)')
-    cx.call('_get_all_symbols', lambda ex, st, r, a, kw: V('set', z3.Const('condition_symbols', z3.SeqSort(REF)), ek=DRef()))
+    def all_symbols(ex, st, r, a, kw):
+        # the variables that need a saved '_old' copy are those of ALL branch conditions: the effective condition of branch i contains the negation
+        # of every earlier condition, so a variable of an earlier condition assigned in a later branch must be frozen as well
+        arg = a[0]
+        cur = st['conditions']           # all branch conditions (with the 'true' of an else branch appended)
+        ex.need(st, z3.BoolVal(True) if (arg.kind == 'seq' and arg.t.eq(cur.t)) else ((arg.t == cur.t) if arg.kind == 'seq' else z3.BoolVal(False)), 'old-copies.cover-all-branch-conditions@0', 'ensures')
+        return V('set', z3.Const('condition_symbols', z3.SeqSort(REF)), ek=DRef())
+    cx.call('_get_all_symbols', all_symbols)
     cx.call('get_unique_var', lambda ex, st, r, a, kw: V('str', ex.fresh(S, 'oldname')))
     cx.call('PolyAssignment.deterministic', lambda ex, st, r, a, kw: V('ref', ex.fresh(REF, 'rename_assign')))
     cx.field('variable', lambda ex, st, o: V('ref', z3.Function('assign_variable', REF, REF)(o.t)))
@@ -121,6 +128,7 @@ def loop_guard_execute(cx):
     cx.call('_collapse_first_level_ifs', lambda ex, st, r, a, kw: VTuple(stm, cond), trusted='_collapse_first_level_ifs: statements and conjunction of the collapsed single top-level ifs')
     cx.call('simplify', lambda ex, st, r, a, kw: V('ref', SIMP(r.t)), trusted='Condition.simplify(): equivalent condition')
     cx.call('And', lambda ex, st, r, a, kw: V('ref', AND(a[0].t, a[1].t)))
+    cx.call('get_conjuncts', lambda ex, st, r, a, kw: V('seq', ex.fresh(z3.SeqSort(REF), 'conjuncts'), ek=DRef('Condition')), trusted='Condition.get_conjuncts(): the top-level conjuncts (nothing else is assumed)')
 
     def true_cond(ex, st, r, a, kw):
         t = ex.fresh(REF, 'truecond'); ex.axioms.append(ISTRUE(t)); return V('ref', t)
